@@ -1262,6 +1262,14 @@ impl Engine {
                     let many = vb.get_many_mut([h])[0].is_some();
                     let mut vo = world.view::<Option<&C1>>();
                     let (oc, ogm) = (vo.contains(h), vo.get_mut(h).is_some());
+                    // the single-entity query agrees with satisfies for queries the empty archetype satisfies
+                    let sat = world.satisfies::<()>(h).unwrap_or(false);
+                    let q1 = world.query_one::<()>(h).map(|mut q| q.get().is_some()).unwrap_or(false);
+                    let q1o = world.query_one::<Option<&C1>>(h).map(|mut q| q.get().is_some()).unwrap_or(false);
+                    let er = world.entity(h).map(|e| e.query::<()>().get().is_some()).unwrap_or(false);
+                    if q1 != sat || q1o != sat || er != sat {
+                        out.flag(format!("C16/C08: satisfies::<()>({:?}) = {sat} but query_one::<()> {q1}, query_one::<Option<&C1>> {q1o}, EntityRef::query::<()> {er}", h));
+                    }
                     if g != vc || gm != vc || many != vc || oc != vc || ogm != vc {
                         out.flag(format!("C16/C08: view random access disagrees on {:?}: contains {vc}, get {g}, get_mut {gm}, get_many_mut {many}, Option view contains {oc} get_mut {ogm}", h));
                     }
